@@ -84,7 +84,7 @@ def run(ck):
     R.check_pack_layout(ck, it, env, call_method(it, env, tlv, "pack"), [F("tlv_type", 8), R.len_atom(8, PD.blen("value")), B("value")], "CfdpTlv.pack", "type | length | value", extra_widths={"tlv_type": 8})
     R.check_lin_equal(ck, read_path(it, env, tlv, "packet_len"), PD.blen("value") + Lin({}, 2), "CfdpTlv.packet_len", "packet_len == len(value) + 2")
     st, m = D.prove(env.facts, binop("<=", length(sym("value", ty="bytes")), C(255)))
-    ck.verdict("G-REFUSE", "CfdpTlv.__init__", "a value longer than 255 octets is refused", [] if st == "proved" else [f"{st}: {m}"], "guard")
+    ck.verdict3("G-REFUSE", "CfdpTlv.__init__", "a value longer than 255 octets is refused", st, m, "guard")
     for x in it.raises:
         if x["kind"] == "explicit" and not x["caught"]:
             ck.verdict("G-REFUSE", "CfdpTlv.__init__", "refusal is a ValueError", [] if it.exc_matches(x["exc"], ("ValueError",)) else [x["exc"]], x["exc"], nontrivial=False)
@@ -93,7 +93,7 @@ def run(ck):
     R.check_pack_layout(ck, it, env, call_method(it, env, lv, "pack"), [R.len_atom(8, PD.blen("value")), B("value")], "CfdpLv.pack", "length | value")
     R.check_lin_equal(ck, read_path(it, env, lv, "packet_len"), PD.blen("value") + Lin({}, 1), "CfdpLv.packet_len", "packet_len == len(value) + 1")
     st, m = D.prove(env.facts, binop("<=", length(sym("value", ty="bytes")), C(255)))
-    ck.verdict("G-REFUSE", "CfdpLv.__init__", "a value longer than 255 octets is refused", [] if st == "proved" else [f"{st}: {m}"], "guard")
+    ck.verdict3("G-REFUSE", "CfdpLv.__init__", "a value longer than 255 octets is refused", st, m, "guard")
     # equality (round trip "returns the same type and value" is observed with ==)
     it = new_interp(P); env = Env()
     try:
@@ -117,7 +117,7 @@ def run(ck):
         R.check_field_bits(ck, it, read_path(it, env, dec, "tlv_type"), data_bits_be("data", 0, 8), fn, "type == octet 0")
         R.check_slice_extent(ck, simp(read_path(it, env, dec, "value")), "data", Lin({}, 2), Lin({L: 1}, 2), fn, "value == data[2 : 2+L], L = octet 1")
         st, m = D.prove(env.facts, binop(">=", length(data), binop("+", L, C(2))))
-        ck.verdict("G-REFUSE", fn, "a buffer shorter than length + 2 (every strict prefix) is refused", [] if st == "proved" else [f"{st}: {m}"], "len(data) >= L + 2 on return")
+        ck.verdict3("G-REFUSE", fn, "a buffer shorter than length + 2 (every strict prefix) is refused", st, m, "len(data) >= L + 2 on return")
         D.check_short_refusals_justified(ck, it, fn, "data", binop("+", L, C(2)), "length + 2 octets (a complete TLV, also one with an empty value, is accepted)")
         R.check_lin_equal(ck, simp(read_path(it, env, dec, "packet_len")), Lin({L: 1}, 2), fn, "decoded packet_len == L + 2")
         D.check_xbuf(ck, it, fn); D.check_xdecl(ck, it, fn, "data", binop("+", L, C(2)), extra_facts=env.facts); D.check_escape(ck, it, fn, allowed=allowed)
@@ -129,7 +129,7 @@ def run(ck):
         fn = "CfdpLv.unpack"
         L = T("idx", rb, C(0), ty="int")
         st, m = D.prove(env.facts, binop(">=", length(rb), binop("+", L, C(1))))
-        ck.verdict("G-REFUSE", fn, "a buffer shorter than length + 1 is refused", [] if st == "proved" else [f"{st}: {m}"], "len >= L + 1 on return")
+        ck.verdict3("G-REFUSE", fn, "a buffer shorter than length + 1 is refused", st, m, "len >= L + 1 on return")
         D.check_short_refusals_justified(ck, it, fn, "raw_bytes", binop("+", L, C(1)), "length + 1 octets (a complete LV is accepted)", exc_suffix=("BytesTooShortError", "ValueError"), only_func="CfdpLv.unpack")
         # value: gamma(L == 0, empty, slice)
         def obj_leaves(t):
